@@ -140,6 +140,51 @@ theorem hsOfUnitary_row0 (B : Basis ℂ d) (z : Fin (d * d)) (s : ℂ) (hB : ONH
   · simp [h]
 end hs
 
+/-! ## names outside the catalogue are rejected (about the definitions GENERATED from the source, QGen/C17.lean) -/
+section names
+open QGen.C17
+
+/-- C17 `unknown_name_rejected` (1): the translated `is_valid_state_name` accepts exactly the names that the
+translated `get_state_names()` lists — every name, of any length. (A rewrite of the validator that is no longer a
+chain of catalogue-membership tests makes the translator fail; one that changes the lists re-opens this proof.) -/
+theorem valid_iff_listed (name : String) :
+    is_valid_state_name name = true ↔ name ∈ get_state_names := by
+  simp only [is_valid_state_name, get_state_names, List.contains_iff_mem, List.mem_append, List.nil_append]
+  constructor
+  · intro h
+    split_ifs at h with h1 h2 h3 h4 h5
+    · exact Or.inl (Or.inl (Or.inl (Or.inl h1)))
+    · exact Or.inl (Or.inl (Or.inl (Or.inr h2)))
+    · exact Or.inl (Or.inl (Or.inr h3))
+    · exact Or.inl (Or.inr h4)
+    · exact Or.inr h5
+  · intro h
+    rcases h with (((h | h) | h) | h) | h <;> simp [h]
+
+/-- C17 `unknown_name_rejected` (2): both state generators that every state object form goes through
+(`generate_state_pure_state_vector_from_name`, `generate_state_density_mat_from_name`) raise for every name that
+`get_state_names()` does not list. -/
+theorem unknown_name_rejected (name : String) (h : name ∉ get_state_names) :
+    generate_state_pure_state_vector_from_name_rejects name = true ∧
+      generate_state_density_mat_from_name_rejects name = true := by
+  have hv : is_valid_state_name name = false := by
+    cases hb : is_valid_state_name name
+    · rfl
+    · exact absurd ((valid_iff_listed name).mp hb) h
+  simp [generate_state_pure_state_vector_from_name_rejects, generate_state_density_mat_from_name_rejects, hv]
+
+/-- and conversely a listed name passes the guard -/
+theorem listed_name_accepted (name : String) (h : name ∈ get_state_names) :
+    generate_state_pure_state_vector_from_name_rejects name = false := by
+  simp [generate_state_pure_state_vector_from_name_rejects, (valid_iff_listed name).mpr h]
+
+/-- the hypotheses are inhabited on both sides; near-miss names assembled from valid labels are rejected -/
+example : is_valid_state_name "z0_x1_a" = true := by decide +kernel
+example : "z0_01x0" ∉ get_state_names := by decide +kernel
+example : generate_state_pure_state_vector_from_name_rejects "01z0_01z0_01z0" = true := by decide +kernel
+example : get_state_names.length = 749 := by decide +kernel
+end names
+
 /-- `hsOfUnitary_row0` instantiated (one-dimensional system, `U = 1`) -/
 example : (hsOfUnitary basis1 (Mat.one : Mat ℂ 1 1)).get ⟨0, by decide⟩ ⟨0, by decide⟩ = 1 := by
   have := hsOfUnitary_row0 basis1 _ 1 onh0_basis1 (by simp) Mat.one (by simp) ⟨0, by decide⟩
